@@ -302,6 +302,15 @@ class Run(object):
                     ret = child.expect_exact(arg, timeout=T, searchwindowsize=W)
                 elif k == 'expect_list':
                     cpl = child.compile_pattern_list(pats)
+                    # every other expect_list of a history passes ONE list object that the caller edits in place
+                    # between the calls (the others pass a fresh list, whose memory - and id() - is free for reuse
+                    # as soon as the call is over)
+                    self.n_expect_list = getattr(self, 'n_expect_list', 0) + 1
+                    if self.n_expect_list % 2 == 0 or self.case.get('reuse_cpl', len(self.case.get('ops', [])) % 2 == 0):
+                        if not hasattr(self, 'shared_cpl'):
+                            self.shared_cpl = []
+                        self.shared_cpl[:] = cpl
+                        cpl = self.shared_cpl
                     ret = child.expect_list(cpl, timeout=T, searchwindowsize=W)
                 elif k == 'loop_re':
                     cpl = child.compile_pattern_list(pats)
